@@ -340,7 +340,10 @@ func c01Leaf(r *Run) {
 	r.FailEdge(fn, "MerkleTreeLeafFromChain", EdgeSpec{Name: "no-final-issuer", Atom: ordAtomR("len(p0)", "3"), Bad: "<", Want: wantErr(true)})
 	if f2 := r.Fn("ct.IsPreIssuer"); f2 != nil {
 		r.FailEdge(f2, "IsPreIssuer", EdgeSpec{Name: "ct-eku-found", Atom: ordAtomR("p0.ExtKeyUsage[*]", "*"), Bad: "=",
-			Want: func(r *Run, ret *ssa.Return) (bool, string) { d := r.D.D(ret.Results[0]); return d == "true", "returns " + d }})
+			Want: func(r *Run, ret *ssa.Return) (bool, string) {
+				d := r.D.D(ret.Results[0])
+				return d == "true", "returns " + d
+			}})
 		c := r.P.LookupConst("x509.ExtKeyUsageCertificateTransparency")
 		if c != nil {
 			r.Pass("IsPreIssuer:const", r.P.Pos(c.Pos()), "ExtKeyUsageCertificateTransparency = "+c.Val().ExactString())
